@@ -183,6 +183,11 @@ fn check_transformed(lang: SupportLang, lname: &str, fname: &str, src: &str, nod
   if text.contains('\n') || text.len() > 60 || text.contains('$') {
     return;
   }
+  // beyond the implementation's documented 512-byte look-behind the match indentation counts as 0
+  let ls = src[..node.range().start].rfind('\n').map(|i| i + 1).unwrap_or(0);
+  if node.range().start - ls > 480 {
+    return;
+  }
   let chars: Vec<char> = text.chars().collect();
   let (s, e) = (rng.range(-3, 3), rng.range(-3, 6));
   let slice = |s: i64, e: i64| -> String {
@@ -265,7 +270,10 @@ pub fn run_source(lang: SupportLang, fname: &str, src: &str, n_cases: usize, rng
     }
     // identity: the pattern text, de-indented by the match line's indentation, as fix
     let m = line_indent_at(src, nr.0);
-    if !crate::mon::c02::premise_holds(&pat, &node, &cut) {
+    if node.text().contains('$') {
+      // statement: "code free of the `$` sigil"; source text like `$Xsed` is itself a variable in a template
+      rep.count("identity_skipped_sigil_in_source", 1);
+    } else if !crate::mon::c02::premise_holds(&pat, &node, &cut) {
       rep.count("identity_skipped_premise", 1);
     } else if let Some(tpl) = deindent_text(&cut.pattern, m) {
       rep.evaluations += 1;
